@@ -6,12 +6,13 @@ CONSTANTS
   NP = 1
   Names = {"a"}
   Vals = {1}
-  Acts = {"CreateGroup", "CreateObject", "AddData", "Move", "AddToGroup", "RemoveViaWorkspace", "RemoveViaParent", "Copy", "Close", "Open", "DropRef", "Collect", "Purge", "LookupDead"}
+  Acts = {"CreateGroup", "CreateObject", "AddData", "Move", "MoveSame", "AddToGroup", "RemoveViaWorkspace", "RemoveViaParent", "Copy", "Close", "Open", "AddDataFails", "DropRef", "Collect", "Purge", "LookupDead"}
   Deviations = {"CloseKeepsOrphans"}
   MaxDepth = 6
 CONSTRAINT DepthBound
 VIEW vw
 INVARIANT TypeOK
+INVARIANT DirtyOnlyInRW
 INVARIANT ReopenEqualsLive
 INVARIANT LinksToNodes
 INVARIANT OneParent
@@ -21,6 +22,7 @@ INVARIANT NoDanglingPG
 INVARIANT RegistryMatchesMemory
 PROPERTY Footprint
 PROPERTY FrozenFile
+PROPERTY OptStaysStripped
 INVARIANT ExportState
 ACTION_CONSTRAINT ExportTrans
 CHECK_DEADLOCK FALSE
